@@ -28,6 +28,7 @@ EXPLANATION = (
     "over plates, the very next step raises the result to the scales of the same plate set (the same set expression inside the "
     "`if plate_to_scale:` block) before the factor is stored. R09.5: sum_product folds the partial results with prod_op starting from "
     "Number(UNITS[prod_op]) and forwards every argument to partial_sum_product."
+    ' R09.10: a front end of funsor.einsum that delegates to a sibling with **kwargs has not, on any CFG path to the call, already popped a key (backend, plates) that the sibling reads from its own kwargs (typestate of the kwargs mapping).'
 )
 ASSUMPTIONS = ["the connected-component partition (_partition), the time-shifted Markov branch and the einsum front end are not decided",
                "value equality with the unrolled graph is not decided"]
